@@ -13,6 +13,7 @@
 import itertools
 import os
 import random
+import re
 import threading
 import time
 
@@ -36,7 +37,7 @@ ASSUMPTIONS = [
     'an abandoned body can only act later if it swallows the termination request',
 ]
 REQUIRED_COUNTERS = ['timing_cases', 'timeouts_observed', 'own_results_kept', 'slow_exits',
-                     'monitor_samples_judged',
+                     'monitor_samples_judged', 'log_handler_waits',
                      'kill_schedules', 'kills_performed', 'bodies_prevented',
                      'bodies_killed', 'kills_without_effect']
 EXHAUSTIVE = {'quick': True, 'thorough': True}
@@ -111,6 +112,12 @@ def enumerated(tier):
   for pos in ('main', 'teardown'):
     for rep in (False, True):
       yield {'k': 'm', 'pos': pos, 'repeat': rep}
+  # the body is waiting for the run's record log handler (another thread of the
+  # phase is logging) when its time-out expires
+  for pos in ('plain', 'main', 'teardown'):
+    for who in ('helper_thread', 'two_helpers'):
+      for hold_ms in (150, 400):
+        yield {'k': 'l', 'pos': pos, 'who': who, 'hold_ms': hold_ms}
   for scen in ('kill_at_target_line', 'held_in_kill', 'kill_before_start',
                'kill_after_exit', 'kill_twice', 'kill_raising_body',
                'kill_mid_body', 'two_killers'):
@@ -833,7 +840,138 @@ def run_kill(case):
   return {'sig': [scen, ctx.get('point')], 'violations': viol, 'counters': c}
 
 
+# ------------------------------------------------------------------ (l)
+def run_logkill(case):
+  """The timed-out body is abandoned while it waits for the record log handler
+  of its run: another thread started by the phase is in the middle of logging a
+  message that takes a while to format.  The kill request is pending when the
+  body gets the handler.  The executor must still proceed: teardown phase, plug
+  tearDown, a finalized TIMEOUT record.  Witness of a violation: execute() has
+  not returned and the handler's lock belongs to a thread that has ended."""
+  import logging
+  H = pm.htf()
+  vc = pm._H['vc']  # pylint: disable=protected-access
+  viol = []
+  c = {'timing_cases': 1, 'timeouts_observed': 0, 'own_results_kept': 0,
+       'log_handler_waits': 0}
+  holding = threading.Event()
+  hold_s = case['hold_ms'] / 1000.0
+  log = pm.EventLog()
+  bodies = []
+
+  def record_handlers():
+    return [h for h in logging.getLogger('openhtf').handlers
+            if type(h).__name__ == 'RecordHandler']
+
+  class SlowText:
+    # formatted by the record handler while it holds its lock
+
+    def __str__(self):
+      if any(h.lock._is_owned() for h in record_handlers()):  # pylint: disable=protected-access
+        holding.set()
+        time.sleep(hold_s)
+      return 'text that took a while to format'
+
+  def chatty(test):
+    me = threading.current_thread()
+    bodies.append(me)
+    n = 2 if case['who'] == 'two_helpers' else 1
+    helpers = [threading.Thread(target=test.logger.info, args=('%s', SlowText()),
+                                name='vf-log-helper-%d' % i, daemon=True)
+               for i in range(n)]
+    for th in helpers:
+      th.start()
+    holding.wait(5)
+    with vc.cv:            # the virtual clock jumps to the deadline
+      vc.hung.add(me)
+      vc.cv.notify_all()
+    log.add('body_logs', 'chatty', 0)
+    c['log_handler_waits'] = 1
+    while True:            # ends by being killed
+      test.logger.info('from the body')
+      time.sleep(0.0005)
+
+  chatty = H.PhaseOptions(timeout_s=10)(chatty)
+
+  def wrap_up(test):
+    log.add('start', 'wrap_up', 0)
+    test.logger.info('teardown phase logs as well')
+
+  pos = case['pos']
+  if pos == 'plain':
+    nodes = [chatty]
+  elif pos == 'main':
+    nodes = [H.PhaseGroup(main=[chatty], teardown=[wrap_up])]
+  else:
+    nodes = [H.PhaseGroup(main=[wrap_up], teardown=[chatty])]
+  t = H.Test(*nodes)
+  recs = []
+  t.add_output_callbacks(recs.append)
+  old_hook = threading.excepthook
+  threading.excepthook = lambda a: None
+  done = {}
+
+  def runner():
+    try:
+      done['ret'] = t.execute()
+    except BaseException as e:  # pylint: disable=broad-except
+      done['exc'] = repr(e)
+
+  th = threading.Thread(target=runner, name='vf-runner', daemon=True)
+  try:
+    handlers_before = set(map(id, record_handlers()))
+    th.start()
+    th.join(20)
+    mine = [h for h in record_handlers() if id(h) not in handlers_before]
+    stuck = th.is_alive()
+    owners = []
+    for h in mine:
+      m = re.search(r'owner=(\d+)', repr(h.lock))
+      if m and int(m.group(1)):
+        ident = int(m.group(1))
+        alive = [x.name for x in threading.enumerate() if x.ident == ident]
+        owners.append({'owner_alive': bool(alive), 'owner': alive[:1]})
+  finally:
+    threading.excepthook = old_hook
+    with vc.cv:
+      for b in bodies:
+        vc.hung.discard(b)
+    if not th.is_alive():
+      pm.prune_handlers()
+  ctx = {'case': {k: case.get(k) for k in ('pos', 'who', 'hold_ms')}}
+  if stuck:
+    dead_owner = any(not o['owner_alive'] for o in owners)
+    viol.append({'mechanism': 'executor-did-not-proceed-within-bound' + (
+        ':record-log-handler-owned-by-an-ended-thread' if dead_owner else ''),
+                 'detail': dict(ctx, handler_locks=owners,
+                                events=[list(e[2:5]) for e in log.events][:8])})
+    # the stuck run keeps its handler; take it off the shared logger
+    lg = logging.getLogger('openhtf')
+    lg.handlers = [h for h in lg.handlers if h not in mine]
+    return {'sig': case, 'violations': viol, 'counters': c}
+  if not recs:
+    viol.append({'mechanism': 'no-record', 'detail': dict(ctx, done=done)})
+    return {'sig': case, 'violations': viol, 'counters': c}
+  rec = recs[0]
+  ph = [p for p in rec.phases if p.name == 'chatty']
+  if len(ph) == 1 and pm.res_name(ph[0].result) == 'TIMEOUT':
+    c['timeouts_observed'] = 1
+  else:
+    viol.append({'mechanism': 'late-body-not-timed-out',
+                 'detail': dict(ctx, phases=[(p.name, pm.res_name(p.result))
+                                             for p in rec.phases])})
+  if rec.outcome.name != 'TIMEOUT':
+    viol.append({'mechanism': 'run-outcome-not-TIMEOUT',
+                 'detail': dict(ctx, outcome=rec.outcome.name)})
+  if pos == 'main' and not any(e[2] == 'start' and e[3] == 'wrap_up'
+                               for e in log.events):
+    viol.append({'mechanism': 'teardown-not-run-after-timeout', 'detail': ctx})
+  return {'sig': case, 'violations': viol, 'counters': c}
+
+
 def run_case(case):
+  if case['k'] == 'l':
+    return run_logkill(case)
   if case['k'] == 'm':
     return run_monitor(case)
   return run_timing(case) if case['k'] == 't' else run_kill(case)
